@@ -18,6 +18,7 @@ from __future__ import annotations
 
 import collections
 import datetime
+import functools
 import threading
 from typing import Optional
 
@@ -57,6 +58,27 @@ def _get_current_time() -> timestamp_pb2.Timestamp:
 
 StudyResource = resources.StudyResource
 TrialResource = resources.TrialResource
+
+
+def _report_datastore_errors(rpc):
+  """Reports datastore lookup errors of an RPC with their status code.
+
+  In the local case (no context) a `NotFoundError` / `AlreadyExistsError` raised
+  by the datastore simply propagates to the caller. In the remote case gRPC
+  would turn such an uncaught exception into StatusCode.UNKNOWN, so it is
+  converted into NOT_FOUND / ALREADY_EXISTS here.
+  """
+
+  @functools.wraps(rpc)
+  def wrapper(self, request, context=None):
+    try:
+      return rpc(self, request, context)
+    except (custom_errors.NotFoundError, custom_errors.AlreadyExistsError) as e:
+      if context is None:
+        raise
+      grpc_util.handle_exception(e, context)
+
+  return wrapper
 
 
 # TODO: remove context = None
@@ -142,6 +164,7 @@ class VizierServicer(vizier_service_pb2_grpc.VizierServiceServicer):
         study_pb2.Study.State.STATE_UNSPECIFIED,
     )
 
+  @_report_datastore_errors
   def CreateStudy(
       self,
       request: vizier_service_pb2.CreateStudyRequest,
@@ -205,6 +228,7 @@ class VizierServicer(vizier_service_pb2_grpc.VizierServiceServicer):
       self.datastore.create_study(study)
     return study
 
+  @_report_datastore_errors
   def GetStudy(
       self,
       request: vizier_service_pb2.GetStudyRequest,
@@ -213,6 +237,7 @@ class VizierServicer(vizier_service_pb2_grpc.VizierServiceServicer):
     """Gets a Study by name. If the study does not exist, return error."""
     return self.datastore.load_study(request.name)
 
+  @_report_datastore_errors
   def ListStudies(
       self,
       request: vizier_service_pb2.ListStudiesRequest,
@@ -222,6 +247,7 @@ class VizierServicer(vizier_service_pb2_grpc.VizierServiceServicer):
     studies = self.datastore.list_studies(request.parent)
     return vizier_service_pb2.ListStudiesResponse(studies=studies)
 
+  @_report_datastore_errors
   def DeleteStudy(
       self,
       request: vizier_service_pb2.DeleteStudyRequest,
@@ -235,6 +261,7 @@ class VizierServicer(vizier_service_pb2_grpc.VizierServiceServicer):
         self.datastore.delete_study(request.name)
     return empty_pb2.Empty()
 
+  @_report_datastore_errors
   def SetStudyState(
       self,
       request: vizier_service_pb2.SetStudyStateRequest,
@@ -246,6 +273,7 @@ class VizierServicer(vizier_service_pb2_grpc.VizierServiceServicer):
       self.datastore.update_study(study)
     return study
 
+  @_report_datastore_errors
   def SuggestTrials(
       self,
       request: vizier_service_pb2.SuggestTrialsRequest,
@@ -486,6 +514,7 @@ class VizierServicer(vizier_service_pb2_grpc.VizierServiceServicer):
       self.datastore.update_suggestion_operation(output_op)
       return output_op
 
+  @_report_datastore_errors
   def GetOperation(
       self,
       request: operations_pb2.GetOperationRequest,
@@ -494,6 +523,7 @@ class VizierServicer(vizier_service_pb2_grpc.VizierServiceServicer):
     """Gets the latest state of a SuggestTrials() long-running operation."""
     return self.datastore.get_suggestion_operation(request.name)
 
+  @_report_datastore_errors
   def CreateTrial(
       self,
       request: vizier_service_pb2.CreateTrialRequest,
@@ -520,6 +550,7 @@ class VizierServicer(vizier_service_pb2_grpc.VizierServiceServicer):
       self.datastore.create_trial(trial)
     return trial
 
+  @_report_datastore_errors
   def GetTrial(
       self,
       request: vizier_service_pb2.GetTrialRequest,
@@ -528,6 +559,7 @@ class VizierServicer(vizier_service_pb2_grpc.VizierServiceServicer):
     """Gets a Trial."""
     return self.datastore.get_trial(request.name)
 
+  @_report_datastore_errors
   def ListTrials(
       self,
       request: vizier_service_pb2.ListTrialsRequest,
@@ -537,6 +569,7 @@ class VizierServicer(vizier_service_pb2_grpc.VizierServiceServicer):
     list_of_trials = self.datastore.list_trials(request.parent)
     return vizier_service_pb2.ListTrialsResponse(trials=list_of_trials)
 
+  @_report_datastore_errors
   def AddTrialMeasurement(
       self,
       request: vizier_service_pb2.AddTrialMeasurementRequest,
@@ -584,6 +617,7 @@ class VizierServicer(vizier_service_pb2_grpc.VizierServiceServicer):
 
   # TODO: Auto selection defaults to the last measurement.
   # Add support for "best measurement" behavior.
+  @_report_datastore_errors
   def CompleteTrial(
       self,
       request: vizier_service_pb2.CompleteTrialRequest,
@@ -630,6 +664,7 @@ class VizierServicer(vizier_service_pb2_grpc.VizierServiceServicer):
       self.datastore.update_trial(trial)
     return trial
 
+  @_report_datastore_errors
   def DeleteTrial(
       self,
       request: vizier_service_pb2.DeleteTrialRequest,
@@ -648,6 +683,7 @@ class VizierServicer(vizier_service_pb2_grpc.VizierServiceServicer):
     return empty_pb2.Empty()
 
   # TODO: This currently uses the same algorithm as suggestion.
+  @_report_datastore_errors
   def CheckTrialEarlyStoppingState(
       self,
       request: vizier_service_pb2.CheckTrialEarlyStoppingStateRequest,
@@ -845,6 +881,7 @@ class VizierServicer(vizier_service_pb2_grpc.VizierServiceServicer):
           should_stop=output_operation.should_stop
       )
 
+  @_report_datastore_errors
   def StopTrial(
       self,
       request: vizier_service_pb2.StopTrialRequest,
@@ -890,6 +927,7 @@ class VizierServicer(vizier_service_pb2_grpc.VizierServiceServicer):
         grpc_util.handle_exception(e, context)
     return trial
 
+  @_report_datastore_errors
   def ListOptimalTrials(
       self,
       request: vizier_service_pb2.ListOptimalTrialsRequest,
@@ -966,6 +1004,7 @@ class VizierServicer(vizier_service_pb2_grpc.VizierServiceServicer):
         optimal_trials=optimal_trials
     )
 
+  @_report_datastore_errors
   def UpdateMetadata(
       self,
       request: vizier_service_pb2.UpdateMetadataRequest,
